@@ -49,6 +49,17 @@ def plan(seed, subbatch):
             tf2 = world.pick_timeframe(cfg, base_s, 2.0, 30.0, allow_finer=False)
             tfs.append(tf2)
         members = sample_members(cfg, cfg.randint(1, 3), tfs)
+        if cfg.random() < 0.15:
+            # a chained pair on the default candles, registered in either order (a consumer listed before
+            # its source simply never gets an input on the newest candle: whatever it shows must be final)
+            src = {"cls": "RSI", "params": {"period": cfg.randint(2, 5)}, "common": {}}
+            sname = f"RSI_{src['params']['period']}"
+            cons = cfg.choice((
+                {"cls": "StandardDeviation", "params": {"period": cfg.randint(2, 5), "input_value": sname}, "common": {}},
+                {"cls": "TSI", "params": {"period": cfg.randint(2, 5), "input_value": sname}, "common": {}},
+                {"cls": "Counter", "params": {"input_value": sname, "count_value": 100.0}, "common": {}},
+            ))
+            members = [cons, src] if cfg.random() < 0.5 else [src, cons]
         hexcfg = {"timeframe_fill": fill}
     n = planlib.pick_n(cfg, (2, 12), (5, 50), (20, 160))
     long_history = kind == "indicator" and cfg.random() < (0.04 if planlib.thorough() else 0.012)
